@@ -33,6 +33,14 @@ import (
 //	unsub       start Unsubscribe on subscription #A
 //	unsubreply  answer outstanding eth_unsubscribe #A          B: 0 true, 1 false, 2 JSON-RPC error
 //	cancelcall  cancel the context of outstanding call #A
+//	cancelreply cancel the context of outstanding call #A AND hand the reply to its request to the receive loop, without
+//	            waiting for the caller, so that both are pending at once      B%3: 0 = cancel first, then the reply; 1 = the reply
+//	            first, then cancel; 2 = the reply, wait until the receive loop has put it into the caller's slot, then cancel at once;
+//	            B/3: payload as for reply.  The call may return its own reply or the context error; whatever it did, the reply
+//	            is used up: every later call must still get exactly the reply to its own request
+//	unsubcancelreply  the same for outstanding eth_unsubscribe #A (Unsubscribe waits in CallRPC as well)    B%3 order, B/3 as for unsubreply
+//	latereply   a reply for the id of one of the four calls that finished most recently (answered, cancelled, failed by a
+//	            reconnect), shaped like a genuine reply                                   A: which, B: 0 result, 1 JSON-RPC error, 2 null result
 //	cancelsub   cancel the context of pending (first-time) Subscribe #A
 //	reconnect   drop the connection and run the after-connect callback   A: k>0 = the k-th send of the callback fails
 //	            B (only after "down"): 0 = requests blocked in Send go out before the callback runs, 1 = after it
@@ -47,7 +55,10 @@ type WSStep struct {
 	B  int    `json:"b,omitempty"`
 }
 
+// WSCase: P > 0 runs the sequence under GOMAXPROCS(P).  With P = 1 the goroutine that was woken first does not
+// run before the harness blocks, so "cancel, then hand over the reply" leaves both pending when the caller wakes up.
 type WSCase struct {
+	P     int      `json:"gomaxprocs,omitempty"`
 	Steps []WSStep `json:"steps"`
 }
 
@@ -1039,6 +1050,169 @@ func (r *wsRun) opCancelCall(a int) {
 	}
 }
 
+// opCancelReply: the context of an outstanding call is cancelled and the reply to its request is handed to the
+// receive loop back to back - neither is waited for, so the caller finds both (or the reply lands in its slot just
+// after it gave up).  Its own reply and the context error are both legitimate outcomes.
+func (r *wsRun) opCancelReply(a, b int) {
+	if len(r.calls) == 0 || r.isDown {
+		return
+	}
+	if a < 0 {
+		a = -a
+	}
+	if b < 0 {
+		b = -b
+	}
+	c := r.calls[a%len(r.calls)]
+	kind := (b / 3) % 3
+	var msg string
+	switch kind {
+	case 0:
+		msg = fmt.Sprintf(`{"jsonrpc":"2.0","id":%q,"result":"res-%s"}`, c.id, c.token)
+	case 1:
+		msg = fmt.Sprintf(`{"jsonrpc":"2.0","id":%q,"error":{"code":-32000,"message":"err-%s"}}`, c.id, c.token)
+	default:
+		msg = fmt.Sprintf(`{"jsonrpc":"2.0","id":%q,"result":null}`, c.id)
+	}
+	if r.held != nil && !r.consumeHeld() { // the loop must be free to take the reply at once
+		return
+	}
+	switch b % 3 {
+	case 0:
+		c.cancel()
+		if !r.deliverRaw(msg) {
+			return
+		}
+		r.class("ws:cancel-then-reply-at-once")
+	case 1:
+		if !r.deliverRaw(msg) {
+			return
+		}
+		c.cancel()
+		r.class("ws:reply-then-cancel-at-once")
+	default:
+		if !r.deliverRaw(msg) || !r.deliverRaw("#verif-barrier") {
+			return
+		}
+		c.cancel()
+		r.class("ws:reply-in-the-callers-slot-then-cancel-at-once")
+	}
+	r.removeCall(c)
+	r.stale = append(r.stale, c.id)
+	res, ok := r.waitCall(c, "its context was cancelled and the reply to its request was delivered")
+	if !ok || !r.barrier() {
+		return
+	}
+	own := false
+	switch kind {
+	case 0:
+		own = res.rpcErr == nil && res.result == "res-"+c.token
+	case 1:
+		own = res.rpcErr != nil && res.rpcErr.Message == "err-"+c.token
+	default:
+		own = res.rpcErr == nil && res.result == ""
+	}
+	switch {
+	case own:
+		r.class("ws:cancel+reply-at-once:caller-got-its-reply")
+	case res.rpcErr != nil && !strings.HasPrefix(res.rpcErr.Message, "err-") && !strings.HasPrefix(res.rpcErr.Message, "stale-") && !strings.HasPrefix(res.rpcErr.Message, "late-"):
+		r.class("ws:cancel+reply-at-once:caller-got-context-error")
+	default:
+		r.fail("reply-pairing", "call %s (id %s) was cancelled while the reply to its request (kind %d) arrived: it returned neither that reply nor an error of its own: result %q error %v", c.token, c.id, kind, res.result, res.rpcErr)
+	}
+}
+
+// opUnsubCancelReply: the same for an Unsubscribe that waits for the answer to its eth_unsubscribe.
+func (r *wsRun) opUnsubCancelReply(a, b int) {
+	s := pickSub(r.subs, a, stUnsubscribing)
+	if s == nil || r.isDown {
+		return
+	}
+	if b < 0 {
+		b = -b
+	}
+	kind := (b / 3) % 3
+	var msg string
+	switch kind {
+	case 0:
+		msg = fmt.Sprintf(`{"jsonrpc":"2.0","id":%q,"result":true}`, s.unsubID)
+	case 1:
+		msg = fmt.Sprintf(`{"jsonrpc":"2.0","id":%q,"result":false}`, s.unsubID)
+	default:
+		msg = fmt.Sprintf(`{"jsonrpc":"2.0","id":%q,"error":{"code":-32003,"message":"unsub-%s"}}`, s.unsubID, s.token)
+	}
+	if r.held != nil && !r.consumeHeld() {
+		return
+	}
+	switch b % 3 {
+	case 0:
+		s.cancel()
+		if !r.deliverRaw(msg) {
+			return
+		}
+	case 1:
+		if !r.deliverRaw(msg) {
+			return
+		}
+		s.cancel()
+	default:
+		if !r.deliverRaw(msg) || !r.deliverRaw("#verif-barrier") {
+			return
+		}
+		s.cancel()
+	}
+	r.class("ws:unsubscribe-cancelled-as-its-reply-arrives")
+	r.stale = append(r.stale, s.unsubID)
+	e, ok := r.waitUnsub(s, "its context was cancelled and the server's answer was delivered")
+	if !ok || !r.barrier() {
+		return
+	}
+	switch {
+	case e == nil && kind == 2:
+		r.fail("reply-pairing", "Unsubscribe of %s: the server answered error unsub-%s while the context was cancelled, the caller got no error at all", s.token, s.token)
+	case e == nil:
+		s.chClosed = true
+	case strings.HasPrefix(e.Message, "unsub-") && (kind != 2 || e.Message != "unsub-"+s.token),
+		strings.HasPrefix(e.Message, "err-"), strings.HasPrefix(e.Message, "stale-"), strings.HasPrefix(e.Message, "late-"):
+		r.fail("reply-pairing", "Unsubscribe of %s was cancelled while the server's answer (kind %d) arrived: it returned an error that belongs to another request: %v", s.token, kind, e)
+	}
+	if kind != 2 {
+		delete(r.serverLive, s.serverID) // the server has dropped it
+	}
+	s.state = stGone
+}
+
+// opLateReply: a reply, shaped like a genuine one, for the id of a call that finished a moment ago.
+func (r *wsRun) opLateReply(a, b int) {
+	if r.isDown || len(r.stale) == 0 {
+		return
+	}
+	if a < 0 {
+		a = -a
+	}
+	if b < 0 {
+		b = -b
+	}
+	recent := tail(r.stale, 4)
+	id := recent[len(recent)-1-a%len(recent)]
+	r.seq++
+	var msg string
+	switch b % 3 {
+	case 0:
+		msg = fmt.Sprintf(`{"jsonrpc":"2.0","id":%q,"result":"late-%d"}`, id, r.seq)
+	case 1:
+		msg = fmt.Sprintf(`{"jsonrpc":"2.0","id":%q,"error":{"code":-32004,"message":"late-%d"}}`, id, r.seq)
+	default:
+		msg = fmt.Sprintf(`{"jsonrpc":"2.0","id":%q,"result":null}`, id)
+	}
+	if len(r.calls) > 0 {
+		r.class("ws:late-reply-for-finished-call-while-others-outstanding")
+	} else {
+		r.class("ws:late-reply-for-finished-call")
+	}
+	r.deliverSync(msg)
+}
+
 func (r *wsRun) opCancelSub(a int) {
 	s := pickSub(r.subs, a, stPending1, stLimbo)
 	if s == nil {
@@ -1354,6 +1528,10 @@ type wsInfo struct {
 func runWS(c WSCase) (vs []evid.Violation, info wsInfo) {
 	r := &wsRun{tr: newFakeWS(), owner: map[string]*wsSub{}, serverLive: map[string]bool{}, classes: map[string]bool{}}
 	ctx, cancelAll := context.WithCancel(context.Background())
+	if c.P > 0 {
+		prev := runtime.GOMAXPROCS(c.P)
+		defer runtime.GOMAXPROCS(prev)
+	}
 	r.rc, r.reconnect = rpcbackend.NewWSRPCClientWithTransport(ctx, &wsclient.WSConfig{}, r.tr)
 	defer func() {
 		// end of the connection: the receive loop exits when the transport closes its channel
@@ -1403,6 +1581,12 @@ func runWS(c WSCase) (vs []evid.Violation, info wsInfo) {
 			r.opCancelCall(st.A)
 		case "cancelsub":
 			r.opCancelSub(st.A)
+		case "cancelreply":
+			r.opCancelReply(st.A, st.B)
+		case "unsubcancelreply":
+			r.opUnsubCancelReply(st.A, st.B)
+		case "latereply":
+			r.opLateReply(st.A, st.B)
 		case "reconnect":
 			r.opReconnect(st.A, st.B)
 		case "hold":
@@ -1534,14 +1718,16 @@ var wsOps = []string{
 	"notify", "notify", "notify", "notify",
 	"reconnect", "reconnect", "reconnect",
 	"unsub", "unsub",
+	"cancelreply", "cancelreply", "latereply", "unsubcancelreply",
+	"motif:cancelreply", "motif:cancelreply", "motif:unsubcancelreply",
 	"unsubreply", "unsubreply",
 	"stale", "stale",
 	"reject", "cancelcall", "cancelsub",
 	"hold", "hold", "hold", "consume", "down",
 }
 
-var wsStepGen = rapid.Custom(func(rt *rapid.T) WSStep {
-	st := WSStep{Op: rapid.SampledFrom(wsOps).Draw(rt, "op")}
+func genWSStep(rt *rapid.T, op string) WSStep {
+	st := WSStep{Op: op}
 	switch st.Op {
 	case "call", "sub":
 		if rapid.IntRange(0, 11).Draw(rt, "sendfail") == 11 {
@@ -1553,17 +1739,66 @@ var wsStepGen = rapid.Custom(func(rt *rapid.T) WSStep {
 	case "consume", "down":
 	case "cancelcall", "cancelsub", "unsub", "notify":
 		st.A = rapid.IntRange(0, 7).Draw(rt, "a")
+	case "cancelreply", "unsubcancelreply":
+		st.A = rapid.IntRange(0, 7).Draw(rt, "a")
+		st.B = rapid.IntRange(0, 8).Draw(rt, "b")
 	default:
 		st.A = rapid.IntRange(0, 7).Draw(rt, "a")
 		st.B = rapid.IntRange(0, 5).Draw(rt, "b")
 	}
 	return st
+}
+
+// wsChunkGen yields one step, or a motif: a few steps that set a situation up and follow it through.
+//
+//	motif:cancelreply       1..3 calls; one of them is cancelled as its reply arrives (both pending at once); perhaps a
+//	                        late reply for a finished call; then 1..3 times: a new call, perhaps another late reply, the
+//	                        answer to some outstanding call - each of which must carry the reply to its own request
+//	motif:unsubcancelreply  subscribe, confirm, unsubscribe, the Unsubscribe cancelled as the server's answer arrives, then calls
+var wsChunkGen = rapid.Custom(func(rt *rapid.T) []WSStep {
+	op := rapid.SampledFrom(wsOps).Draw(rt, "op")
+	switch op {
+	case "motif:cancelreply":
+		var l []WSStep
+		for i, n := 0, rapid.IntRange(1, 3).Draw(rt, "calls"); i < n; i++ {
+			l = append(l, WSStep{Op: "call"})
+		}
+		l = append(l, genWSStep(rt, "cancelreply"))
+		if rapid.Bool().Draw(rt, "late") {
+			l = append(l, genWSStep(rt, "latereply"))
+		}
+		for i, n := 0, rapid.IntRange(1, 3).Draw(rt, "after"); i < n; i++ {
+			l = append(l, WSStep{Op: "call"})
+			switch rapid.IntRange(0, 3).Draw(rt, "between") {
+			case 0:
+				l = append(l, genWSStep(rt, "latereply"))
+			case 1:
+				l = append(l, genWSStep(rt, "cancelreply"), WSStep{Op: "call"})
+			}
+			l = append(l, genWSStep(rt, "reply"))
+		}
+		return l
+	case "motif:unsubcancelreply":
+		l := []WSStep{{Op: "sub"}, genWSStep(rt, "confirm"), genWSStep(rt, "unsub"), genWSStep(rt, "unsubcancelreply")}
+		for i, n := 0, rapid.IntRange(1, 2).Draw(rt, "after"); i < n; i++ {
+			l = append(l, WSStep{Op: "call"}, genWSStep(rt, "reply"))
+		}
+		return l
+	}
+	return []WSStep{genWSStep(rt, op)}
 })
 
 func genWS(rt *rapid.T) WSCase {
 	// a slice generator (not a counted loop) so that shrinking can delete steps anywhere
 	minLen := rapid.SampledFrom([]int{4, 8, 16, 16, 30, 30, 45}).Draw(rt, "minSteps")
-	return WSCase{Steps: rapid.SliceOfN(wsStepGen, minLen, 60).Draw(rt, "steps")}
+	c := WSCase{P: rapid.SampledFrom([]int{0, 0, 1, 1, 2, 4}).Draw(rt, "gomaxprocs")}
+	for _, ch := range rapid.SliceOfN(wsChunkGen, minLen, 60).Draw(rt, "steps") {
+		c.Steps = append(c.Steps, ch...)
+	}
+	if len(c.Steps) > 80 {
+		c.Steps = c.Steps[:80]
+	}
+	return c
 }
 
 func classifyWS(c WSCase) (bool, []string) {
@@ -1576,7 +1811,8 @@ func classifyWS(c WSCase) (bool, []string) {
 	case n <= 35:
 		cl = append(cl, "ws:steps=16..35")
 	default:
-		cl = append(cl, "ws:steps=36..60")
+		cl = append(cl, "ws:steps=36..80")
 	}
+	cl = append(cl, fmt.Sprintf("ws:gomaxprocs=%d", c.P))
 	return info.nt, cl
 }
